@@ -456,8 +456,13 @@ def c15_validate(w, ev, slot):
     t = slot.real
     thorough = w.cfg.get('tier') == 'thorough'
     if ref.type is None:
-        t = slot.real.copy()
-        t.type = 'OTU table'
+        # the validator wants a type from the controlled vocabulary: the
+        # caller sets one on this very table (so that what earlier
+        # operations left on it is still there)
+        slot.real.type = 'OTU table'
+        slot.ref.type = 'OTU table'
+        ref = slot.ref
+        t = slot.real
     a = ev.get('a', 0)
     out = []
     if a % 2 == 0 or not h5_grammar_ok(ref) or \
@@ -509,5 +514,28 @@ def c15_validate(w, ev, slot):
         _h5_sweep(w, ev, slot, path, thorough)
         os.unlink(path)
         out.append('hdf5')
+    if (a >> 8) & 1 and h5_grammar_ok(ref) and \
+            _group_md_text(slot.real) is not False:
+        # one path, rewritten by the library in the other format between
+        # validations (JSON, HDF5, JSON): each is a library-written file
+        path = store.new_path(w, '.reused.biom')
+        when = datetime.datetime(2021, 3, 4, 5, 6, 7)
+        for fmt in ('json', 'hdf5', 'json'):
+            if fmt == 'json':
+                with open(path, 'w') as f:
+                    f.write(t.to_json('sim-validate', creation_date=when))
+            else:
+                os.unlink(path)
+                with h5py.File(path, 'w') as f:
+                    t.to_hdf5(f, 'sim-validate', creation_date=when)
+            verdict, report = _validate(path, via_command=bool(a & 4))
+            w.case('c15.accept', 'reused-path-' + fmt, slot)
+            if not verdict:
+                os.unlink(path)
+                w.fail('c15.accept', 'validator rejects a %s file written by '
+                       'the library at a path that held the other format '
+                       'before: %s' % (fmt, report))
+        os.unlink(path)
+        w.stats['c15.path_reuse'] += 1
     w.expect_unchanged(slot, 'c15.source_changed', 'writing for validation')
     return 'c15:' + '+'.join(out)
